@@ -113,7 +113,9 @@ class SnapshotMonitor(Ext):
             raise Violation('C09', 'snapshot_position_wrong', '%r snapshots position %d while its applied index is %d' % (p, k, p.obj.raftLastApplied))
         members = set(n.id for n in cluster if n is not None)
         exp = self.mon.members_at(p, k) if hasattr(self.mon, 'members_at') else None
-        if exp is not None and members != exp:
+        # a node never drops itself from its own member set (a removed node that is still running keeps
+        # listing itself): compare modulo the snapshotting node
+        if exp is not None and (members - {p.key}) != (exp - {p.key}):
             raise Violation('C09', 'snapshot_cluster_wrong', '%r snapshot at %d stores members %r, the log prefix defines %r'
                             % (p, k, sorted(members), sorted(exp)))
 
